@@ -16,6 +16,8 @@ pub enum Kind {
     Opt,
     Rec,
     Node,
+    /// a closure that captured an array; `touch` wraps it in another closure
+    Closure,
 }
 
 const KINDS: &[Kind] = &[
@@ -27,6 +29,7 @@ const KINDS: &[Kind] = &[
     Kind::Opt,
     Kind::Rec,
     Kind::Node,
+    Kind::Closure,
 ];
 
 #[derive(Clone, Debug)]
@@ -39,6 +42,7 @@ enum V {
     Opt(Option<String>),
     Rec(String, Vec<i64>),
     Node(Vec<String>, String),
+    Closure(String),
 }
 
 impl Kind {
@@ -52,6 +56,7 @@ impl Kind {
             Kind::Opt => "option<string>",
             Kind::Rec => "Rec",
             Kind::Node => "Shape",
+            Kind::Closure => "int -> string",
         }
     }
 
@@ -65,6 +70,7 @@ impl Kind {
             Kind::Opt => "option<string>",
             Kind::Rec => "struct",
             Kind::Node => "enum",
+            Kind::Closure => "closure",
         }
     }
 
@@ -163,6 +169,17 @@ fn touch(x: Rec, k: int) -> Rec {
 }
 "#
             }
+            Kind::Closure => {
+                r#"fn mk(w: int, seq: int) {
+    let xs = ["m" .. w]
+    (i: int) -> xs[0] .. "_" .. seq .. "/" .. i
+}
+fn show(x: int -> string) -> string { x(7) }
+fn touch(x: int -> string, k: int) {
+    (i: int) -> x(i) .. "+" .. k
+}
+"#
+            }
             Kind::Node => {
                 r#"fn mk(w: int, seq: int) -> Shape { Shape.Node(["a" .. seq], "m" .. w) }
 fn show(x: Shape) -> string {
@@ -205,6 +222,7 @@ fn touch(x: Shape, k: int) -> Shape {
             }),
             Kind::Rec => V::Rec(format!("m{w}"), vec![seq, seq + 1]),
             Kind::Node => V::Node(vec![format!("a{seq}")], format!("m{w}")),
+            Kind::Closure => V::Closure(format!("m{w}_{seq}/7")),
         }
     }
 
@@ -229,6 +247,7 @@ impl V {
             V::Opt(None) => "none".into(),
             V::Rec(name, vals) => format!("{name}:{}", vals.iter().map(|e| format!("{e},")).collect::<String>()),
             V::Node(xs, y) => format!("N{}{y}", xs.iter().map(|e| format!("{e},")).collect::<String>()),
+            V::Closure(s) => s.clone(),
         }
     }
 
@@ -259,6 +278,7 @@ impl V {
                 xs.push(format!("k{k}"));
                 V::Node(xs, y.clone())
             }
+            V::Closure(s) => V::Closure(format!("{s}+{k}")),
         }
     }
 }
